@@ -26,6 +26,7 @@ REL = "rdflib/graph.py"
 
 class ItemsModel(ListModel):
     name = "c19_items"
+    stop_at_nil = False
 
     def __init__(self):
         super().__init__()
